@@ -144,13 +144,45 @@ pub fn run_scores(case: &Case, viols: &mut Sink) -> Cnt {
     };
     let curve: Vec<(f64, f64)> = roc.get_curve().iter().map(|&(a, b)| (a as f64, b as f64)).collect();
     let thr: Vec<f32> = roc.get_thresholds();
+    // closed form of the implementation's ABSOLUTE tie tolerance: walking up the sorted scores, a
+    // score opens a new curve point only if it is more than 1e-10 above the score that opened the
+    // previous one. It merges distinct scores below ~1e-10, which a rank statistic must not do.
+    let mut groups: Vec<f32> = Vec::new();
+    {
+        let mut s0: f32 = -1.0;
+        for &s in &distinct {
+            if (s - s0).abs() > 1e-10 {
+                groups.push(s);
+                s0 = s;
+            }
+        }
+    }
+    let guard_active = groups.len() != distinct.len();
+    let guard_curve: Vec<(f64, f64)> = {
+        let mut c: Vec<(f64, f64)> = groups
+            .iter()
+            .map(|&g| {
+                let tp = scores.iter().zip(truth).filter(|(&x, &t)| x < g && t).count() as f64;
+                let fp = scores.iter().zip(truth).filter(|(&x, &t)| x < g && !t).count() as f64;
+                (tp / npos as f64, fp / nneg as f64)
+            })
+            .collect();
+        c.push((1.0, 1.0));
+        c
+    };
+    let guard_auc: f64 = guard_curve.windows(2).map(|w| (w[1].0 - w[0].0) * (w[0].1 + w[1].1) / 2.0).sum();
+    if guard_active {
+        cnt.bump("scores.with_distinct_scores_closer_than_1e-10", 1);
+    }
     let same_curve = |a: &[(f64, f64)], b: &[(f64, f64)]| a.len() == b.len() && a.iter().zip(b).all(|(x, y)| (x.0 - y.0).abs() <= TOL_CURVE && (x.1 - y.1).abs() <= TOL_CURVE);
     cnt.bump("scores.values_compared", 2);
     if !(same_curve(&curve, &exp_curve) && thr == distinct) {
         let starts = curve.first().map_or(false, |p| p.0 == 0.0 && p.1 == 0.0);
         let ends = curve.last().map_or(false, |p| (p.0 - 1.0).abs() <= TOL_CURVE && (p.1 - 1.0).abs() <= TOL_CURVE);
         let monotone = curve.windows(2).all(|w| w[1].0 >= w[0].0 - TOL_CURVE && w[1].1 >= w[0].1 - TOL_CURVE);
-        let sig = if min_is_zero && same_curve(&curve, &exp_curve[1..]) && thr == distinct[1..] {
+        let sig = if guard_active && same_curve(&curve, &guard_curve) && thr == groups {
+            "roc.absolute_tie_tolerance_merges_distinct_scores"
+        } else if min_is_zero && same_curve(&curve, &exp_curve[1..]) && thr == distinct[1..] {
             // exactly the expected curve with its first point (0,0) and the threshold 0 missing
             "roc.missing_origin_when_min_score_is_0"
         } else {
@@ -164,7 +196,10 @@ pub fn run_scores(case: &Case, viols: &mut Sink) -> Cnt {
             let auc = auc as f64;
             if !((auc - exp_auc).abs() <= TOL_AUC) {
                 let lost = (tp0 / npos as f64) * (fp0 / nneg as f64) / 2.0;
-                let sig = if min_is_zero && tp0 > 0.0 && fp0 > 0.0 && (auc - (exp_auc - lost)).abs() <= TOL_AUC {
+                let sig = if guard_active && (auc - guard_auc).abs() <= TOL_AUC {
+                    // exactly the area of the curve built with the absolute 1e-10 tie tolerance
+                    "roc.absolute_tie_tolerance_merges_distinct_scores"
+                } else if min_is_zero && tp0 > 0.0 && fp0 > 0.0 && (auc - (exp_auc - lost)).abs() <= TOL_AUC {
                     // exactly the Mann-Whitney value minus the half credit of the (positive, negative)
                     // pairs tied at score 0
                     "roc.auc_loses_ties_at_score_0"
